@@ -257,7 +257,7 @@ def run_scripts(exe, driver, scripts_text, wdir, tag, levels="ABC"):
     crashed = []
     for sp, tp, p in procs:
         try:
-            _, err = p.communicate(timeout=300)
+            _, err = p.communicate(timeout=600)
             rc = p.returncode
         except subprocess.TimeoutExpired:
             p.kill(); rc, err = 124, b"timeout"
@@ -269,7 +269,7 @@ def run_scripts(exe, driver, scripts_text, wdir, tag, levels="ABC"):
                                                 stdout=subprocess.PIPE, stderr=subprocess.STDOUT)))
     for sp, tp, p in dprocs:
         try:
-            out, _ = p.communicate(timeout=600)
+            out, _ = p.communicate(timeout=1800)
             out = out.decode("utf-8", "replace")
         except subprocess.TimeoutExpired:
             p.kill(); out = "D-ERROR driver timeout\n"
